@@ -433,12 +433,26 @@ func c18AddCase(e *env, c c18addCase) {
 	cc := c18addCase{c.n, done}
 	if m := c18OnCycle(accepted); m >= 0 {
 		// a cycle was accepted: what InitModuleServices does with it is probed in a child process
-		// (never in this process: the recursion in listDeps does not end); the first few cases only
+		// (never in this process: the recursion in listDeps would not end); the first few cases only
 		if c18Probes < 6 {
 			c18Probes++
 			probe = c18RunProbe(c.n, cc.callsString(), m)
 		} else {
 			probe = "unprobed:" + strconv.Itoa(m)
+		}
+	} else if c18Probes < 6 {
+		// a self dependency was attempted (and must have been rejected): InitModuleServices of that
+		// module, in a child process, must simply return
+		for _, cl := range done {
+			self := false
+			for _, d := range cl[1:] {
+				self = self || d == cl[0]
+			}
+			if self && cl[0] < c.n {
+				c18Probes++
+				probe = c18RunProbe(c.n, cc.callsString(), cl[0])
+				break
+			}
 		}
 	}
 	r := "-"
